@@ -367,6 +367,10 @@ pub fn run(ctx: &mut Ctx) {
                 let mut g = base.clone();
                 g.edges.reverse();
                 variants.push((g, JaxOpts::default(), false, "is_a lines reversed"));
+                let mut o = JaxOpts::default();
+                o.distractors = vec![jax::Distractor::TagsBetweenIsA, jax::Distractor::ExtraTags];
+                variants.push((base.clone(), o.clone(), false, "other tag lines between and around the is_a lines"));
+                variants.push((base.clone(), o, true, "other tag lines between and around the is_a lines (transitive loader)"));
             }
             for (f, o, transitive, what) in variants {
                 ctx.transitions(f.n_steps());
